@@ -18,6 +18,7 @@ import (
 // worldCase is the replayable form of one history.
 type worldCase struct {
 	Prop     string            `json:"prop"`
+	Also     []string          `json:"also,omitempty"`
 	Conf     string            `json:"conf"`
 	Opts     harness.WorldOpts `json:"opts"`
 	Ops      []harness.Op      `json:"ops"`
@@ -31,6 +32,7 @@ type worldCheck struct {
 	nonTriv  func(w *harness.World) bool
 	floors   []string
 	prologue func(t *rapid.T, w *harness.World, p *harness.Profile)
+	also     []string // further oracle sets, "C03=>C13" reports C03 violations as C13 violations
 }
 
 func runWorld(t *testing.T, wc worldCheck) {
@@ -40,7 +42,7 @@ func runWorld(t *testing.T, wc worldCheck) {
 	rapid.Check(t, func(t *rapid.T) {
 		p := wc.profile()
 		conf := harness.GenConf(t, p.Conf)
-		w, why := harness.NewWorld(conf, p.Opts, wc.prop)
+		w, why := harness.NewWorld(conf, p.Opts, append([]string{wc.prop}, wc.also...)...)
 		if w == nil {
 			st.Label("generator-unsound-config", 1)
 			t.Skipf("generated configuration rejected: %s", why)
@@ -104,7 +106,7 @@ func finishWorldCase(t *rapid.T, st *harness.Stats, wc worldCheck, w *harness.Wo
 		}
 	}
 	if vio != nil {
-		c := worldCase{Prop: wc.prop, Conf: w.InitialConf, Opts: w.Opts, Ops: w.Trace, Epilogue: epilogue}
+		c := worldCase{Prop: wc.prop, Also: wc.also, Conf: w.InitialConf, Opts: w.Opts, Ops: w.Trace, Epilogue: epilogue}
 		raw, _ := json.Marshal(c)
 		harness.RecordFailure(&harness.Failure{Property: wc.prop, Check: wc.check, Message: vio.Msg, Size: len(w.Trace)*100000 + len(raw), Case: raw, Trace: w.Lines,
 			Known: harness.KnownShape(wc.prop, w)})
@@ -121,7 +123,7 @@ func flushWorldFailure(check string) {
 	}
 	var c worldCase
 	if err := json.Unmarshal(f.Case, &c); err == nil && len(c.Ops) > 0 {
-		ops, w := harness.MinimizeTrace(c.Conf, c.Opts, c.Ops, c.Epilogue, c.Prop, f.Message, 40*time.Second)
+		ops, w := harness.MinimizeTrace(c.Conf, c.Opts, c.Ops, c.Epilogue, c.Prop, f.Message, 40*time.Second, c.Also...)
 		if w != nil {
 			c.Ops = ops
 			f.Case, _ = json.Marshal(c)
@@ -159,7 +161,7 @@ func TestWorldReplay(t *testing.T) {
 	if c.Prop == "" {
 		t.Skipf("not a world replay: %s", f.Check)
 	}
-	w, _, why := harness.ReplayWorld(c.Conf, c.Opts, c.Ops, c.Epilogue, false, c.Prop)
+	w, _, why := harness.ReplayWorld(c.Conf, c.Opts, c.Ops, c.Epilogue, false, append([]string{c.Prop}, c.Also...)...)
 	if w == nil {
 		t.Fatalf("replay could not start: %s", why)
 	}
